@@ -2,7 +2,7 @@
 # tools/mutant.sh <scratch-name> <patch-file|-> <ID> [tier] [more IDs...]
 # Runs check(s) against a scratch copy of /repo with a patch applied (sensitivity mutants, seeded changes),
 # without touching /repo or /verif. Everything lives under /tmp/vp-mut-<name> and is deleted afterwards
-# (keep with KEEP=1). Prints "MUTANT <name> <ID> exit=<code>" per check.
+# (keep with KEEP=1). FEATURES=c13,c14 builds only those modules. Prints "MUTANT <name> <ID> exit=<code>" per check.
 set -u
 NAME="$1"; PATCH="$2"; shift 2
 IDS=(); TIER=quick
@@ -19,7 +19,8 @@ cp -r /verif/known_findings.json /verif/corpus /verif/findings "$S/verif/" 2>/de
 find "$S/verif" -name Cargo.toml -o -name config.toml | xargs sed -i "s#\"/repo#\"$S/repo#g; s#/verif/target#$S/target#g"
 export CARGO_NET_OFFLINE=true VERIF_ROOT="$S/verif" CARGO_TARGET_DIR="$S/target"
 rc_all=0
-(cd "$S/verif/harness" && cargo build --release --offline -q -p vcheck 2>"$S/build.log") || { tail -30 "$S/build.log"; echo "MUTANT $NAME build failed"; [ "${KEEP:-0}" = 1 ] || rm -rf "$S"; exit 4; }
+FEAT=""; [ -n "${FEATURES:-}" ] && FEAT="--no-default-features --features $FEATURES"
+(cd "$S/verif/harness" && cargo build --release --offline -q -p vcheck $FEAT 2>"$S/build.log") || { tail -30 "$S/build.log"; echo "MUTANT $NAME build failed"; [ "${KEEP:-0}" = 1 ] || rm -rf "$S"; exit 4; }
 for ID in "${IDS[@]}"; do
   "$S/target/release/vcheck" "$ID" "$TIER" > "$S/out-$ID.log" 2>&1; rc=$?
   grep -E "^(VIOLATION|KNOWN-FINDING|INCONCLUSIVE)" "$S/out-$ID.log" | head -5
